@@ -28,8 +28,12 @@ for p in props:
 m = dict(
     version=1,
     setup_cmd="./tools/setup",
-    hooks=dict(guard="purl_verif_unused", enable="no source hooks exist: the abstract state is visible through the public API (DESIGN.md section 0); checks build /repo/purl unmodified as a path dependency of /verif/harness",
-               baseline_off_cmd="cd /repo && cargo test --workspace --no-fail-fast --offline", source_commits=[], add_only=True),
+    hooks=dict(guard="purl_verif",
+               enable="RUSTFLAGS='--cfg purl_verif' RUSTDOCFLAGS='--cfg purl_verif' PURL_VERIF_TRACE=<file> cargo test --offline -p purl -p purl_test "
+                      "(done by the 'repo-tests' driver of ./check, tools/vlib.py run_repo_tests); every other suite and driver builds /repo/purl "
+                      "WITHOUT the flag, as a path dependency of /verif/harness, because the public API already exposes the abstract state",
+               baseline_off_cmd="cd /repo && cargo test --workspace --no-fail-fast --offline",
+               source_commits=["225a18a", "77bc1ed"], add_only=True),
     engines=[dict(name="tla-model-conformance", path="spec/ tools/ harness/ check",
                   serves_properties=[c["property_id"] for c in checks],
                   kind_free_text="explicit TLA+ specification checked with TLC; bound to the Rust code by replaying TLC-generated cases/behaviours (spec -> impl) and by validating recorded ndjson traces with TLC trace specifications (impl -> spec)")],
